@@ -20,7 +20,7 @@ ERROR awkward_ListOffsetArray_reduce_nonlocal_nextshifts_64(
     int64_t stop = offsets[i + 1];
     int64_t count = stop - start;
 
-    if (starts[parents[i]] == i) {
+    if (i == 0  ||  parents[i] != parents[i - 1]) {
       for (int64_t k = 0;  k < maxcount;  k++) {
         nummissing[k] = 0;
       }
